@@ -1,2 +1,164 @@
+"""Verus back end: (a) functions extracted mechanically from /repo on every run, with contracts spliced
+in (verus/extract.py states exactly what is dropped), (b) the theory lemmas of verus/theory.rs, (c) a
+canary lemma that must be rejected."""
+import json
+import os
+import re
+import subprocess
+import sys
+import time
+
+V = os.path.dirname(os.path.abspath(__file__))
+sys.path.insert(0, os.path.join(V, "verus"))
+import extract  # noqa: E402
+
+# ---- extraction targets ---------------------------------------------------------------------------
+SPEC_PRELUDE = {
+    "pratt": """
+spec fn lp_spec(a: Associativity) -> int { match a { Associativity::Left(x) => 2 * (x as int), Associativity::Right(x) => 2 * (x as int) + 1 } }
+spec fn rp_spec(a: Associativity) -> int { match a { Associativity::Left(x) => 2 * (x as int) + 1, Associativity::Right(x) => 2 * (x as int) } }
+""",
+    "result": "",
+    "repcfg": "",
+}
+TARGETS = {
+    # unit: (file, [type header regexes], impl header regex, {fn: contract}, properties)
+    "pratt": ("src/pratt.rs", [r"^pub enum Associativity \{"], r"^impl Associativity \{", {
+        "left_power": "        ensures r as int == lp_spec(*self),",
+        "right_power": "        ensures r as int == rp_spec(*self),",
+    }, ["C09"]),
+    "result": ("src/lib.rs", [r"^pub struct ParseResult<T, E> \{"], r"^impl<T, E> ParseResult<T, E> \{", {
+        "has_output": "        ensures r == self.output.is_some(),",
+        "has_errors": "        ensures r == (self.errs@.len() > 0),",
+        "into_output": "        ensures r == self.output,",
+        "into_errors": "        ensures r@ == self.errs@,",
+        "into_output_errors": "        ensures r.0 == self.output, r.1@ == self.errs@,",
+        "into_result": "        ensures r.is_ok() == (self.errs@.len() == 0 && self.output.is_some()),\n            match r { Ok(v) => Some(v) == self.output, Err(e) => e@ == self.errs@ },",
+    }, ["C03"]),
+    "repcfg": ("src/combinator.rs", [r"^pub struct RepeatedCfg \{"], r"^impl RepeatedCfg \{", {
+        "at_least": "        ensures r.at_least == Some(n), r.at_most == self.at_most,",
+        "at_most": "        ensures r.at_most == Some(n), r.at_least == self.at_least,",
+        "exactly": "        ensures r.at_least == Some(n), r.at_most == Some(n),",
+    }, ["C02", "C15"]),
+}
+THEORY = {
+    # lemma name -> properties it serves
+    "lemma_fold_is_max": ["C06"], "lemma_fold_from_none": ["C06", "C20"], "lemma_fold_ids": ["C06"],
+    "lemma_truncate_after_append": ["C05"], "lemma_kept_then_abandoned": ["C05"],
+    "lemma_powers": ["C09"], "lemma_count": ["C02"],
+}
+CANARY = """
+use vstd::prelude::*;
+verus! {
+proof fn canary_must_be_rejected(x: nat) ensures x < 5 { }
+}
+fn main() {}
+"""
+
+
+def build_unit(unit, repo):
+    file, type_res, impl_re, fns, _ = TARGETS[unit]
+    src = open(os.path.join(repo, file), errors="replace").read()
+    parts, where = [], []
+    for tr in type_res:
+        text, line, _ = extract.cut_item(src, tr)
+        parts.append(extract.strip_attrs_docs_vis(text))
+        where.append(f"{file}:{line}")
+    impl_text, impl_line, _ = extract.cut_item(src, impl_re)
+    header = impl_text[:impl_text.index("{") + 1]
+    body = []
+    for fn, contract in fns.items():
+        sig, fbody, off = extract.cut_fn(impl_text, fn)
+        body.append(extract.with_contract(sig, fbody, contract))
+        where.append(f"{file}:{impl_line + off} fn {fn}")
+    parts.append(extract.strip_attrs_docs_vis(header) + "\n" + "\n\n".join(body) + "\n}")
+    text = "use vstd::prelude::*;\nverus! {\n" + SPEC_PRELUDE[unit] + "\n" + "\n\n".join(parts) + "\n} // verus!\nfn main() {}\n"
+    return text, where
+
+
+def run_verus(path, work):
+    t0 = time.time()
+    p = subprocess.run(["verus", path, "--output-json", "--time"], stdout=subprocess.PIPE, stderr=subprocess.PIPE, text=True, cwd=work, timeout=300)
+    dt = time.time() - t0
+    res = None
+    try:
+        res = json.loads(p.stdout)
+    except Exception:
+        m = re.search(r"\{.*\}", p.stdout, re.S)
+        if m:
+            try:
+                res = json.loads(m.group(0))
+            except Exception:
+                res = None
+    return p.returncode, res, p.stderr, dt
+
+
+def failed_fns(stderr):
+    """names of functions mentioned in Verus error spans"""
+    names = set()
+    for m in re.finditer(r"fn (\w+)", stderr):
+        names.add(m.group(1))
+    return names
+
+
 def run(pid, tier, repo, work):
-    return {"obligations": [], "undecided": [], "time_s": 0.0, "extraction": []}
+    out = {"obligations": [], "undecided": [], "time_s": 0.0, "extraction": []}
+    vwork = os.path.join(work, "verus")
+    os.makedirs(vwork, exist_ok=True)
+    ran_any = False
+    for unit, (file, _t, _i, fns, props) in TARGETS.items():
+        if pid not in props:
+            continue
+        ran_any = True
+        try:
+            text, where = build_unit(unit, repo)
+        except extract.LostAnchor as e:
+            out["undecided"].append(f"{unit}: lost anchor in {file}: {e}")
+            continue
+        path = os.path.join(vwork, f"extracted_{unit}.rs")
+        open(path, "w").write(text)
+        out["extraction"].append({"unit": unit, "from": where, "file": path, "dropped": "attributes, doc comments, visibility; result named (r: T); contract spliced between signature and body"})
+        rc, res, err, dt = run_verus(path, vwork)
+        out["time_s"] += dt
+        vr = (res or {}).get("verification-results", {})
+        if rc == 0 and vr.get("errors") == 0 and vr.get("verified", 0) >= len(fns):
+            for fn in fns:
+                out["obligations"].append({"name": f"{unit}::{fn}", "status": "verified"})
+        elif vr.get("errors", 0) > 0 and vr.get("success") is False and "error: " in err and not re.search(r"error(\[E\d+\])?: (?!postcondition|precondition|assertion|possible arithmetic|this|unable)", err.replace("error: aborting", "")):
+            bad = failed_fns(err) & set(fns)
+            for fn in fns:
+                if fn in bad or not bad:
+                    out["obligations"].append({"name": f"{unit}::{fn}", "status": "failed", "message": err[-2500:]})
+                else:
+                    out["obligations"].append({"name": f"{unit}::{fn}", "status": "verified"})
+        else:
+            out["undecided"].append(f"{unit}: verus could not process the extracted text (rc={rc}): {err[-400:]}")
+    lemmas = [l for l, props in THEORY.items() if pid in props]
+    if lemmas:
+        ran_any = True
+        rc, res, err, dt = run_verus(os.path.join(V, "verus", "theory.rs"), vwork)
+        out["time_s"] += dt
+        vr = (res or {}).get("verification-results", {})
+        if rc == 0 and vr.get("errors") == 0:
+            for l in lemmas:
+                out["obligations"].append({"name": f"theory::{l}", "status": "verified"})
+        else:
+            bad = failed_fns(err)
+            for l in lemmas:
+                st = "failed" if (l in bad or not (bad & set(THEORY))) else "verified"
+                out["obligations"].append({"name": f"theory::{l}", "status": st, "message": err[-2500:]})
+    if ran_any:
+        # canary: a false lemma must be rejected, otherwise nothing above is believed
+        cpath = os.path.join(vwork, "canary.rs")
+        open(cpath, "w").write(CANARY)
+        rc, res, err, dt = run_verus(cpath, vwork)
+        out["time_s"] += dt
+        if rc == 0:
+            out["undecided"].append("verus canary: a false lemma was accepted")
+        out["canary_rejected"] = rc != 0
+    out["time_s"] = round(out["time_s"], 1)
+    return out
+
+
+if __name__ == "__main__":
+    print(json.dumps(run(sys.argv[1], "quick", os.environ.get("VERIF_REPO", "/repo"), "/verif/.work"), indent=1)[:6000])
